@@ -147,7 +147,10 @@ func runC12(r *Run) {
 	}
 	redisFaultSweep(r, "[C12]", nil)
 	busyStorePatterns(r, [][2]time.Duration{{10 * time.Second, 4 * time.Second}, {30 * time.Second, 10 * time.Second}, {10 * time.Second, 0}, {3 * time.Second, 3 * time.Second}})
-	concurrentMemoryStore(r)
+	storeCrashProbe(r, "[C12]")
+	if r.unknownViolations() == 0 {
+		concurrentMemoryStore(r)
+	}
 	if r.unknownViolations() == 0 {
 		concurrentExpiredReads(r, "[C12]")
 	}
@@ -176,8 +179,22 @@ func runC10(r *Run) {
 			}
 		}
 	}
+	// replicas whose clocks disagree a little, or a wall clock that steps back: a session written "in the future" of the
+	// reader is still inside both limits and is served
+	for _, kind := range []string{"mem", "redis"} {
+		for _, p := range pairs {
+			for _, back := range []time.Duration{-time.Second / 2, -2 * time.Second} {
+				ops := []storeOp{{Kind: "settok", ID: "skew", Tok: toks[0]}, {Kind: "setauth", ID: "skew", Auth: auths[0]}, {Kind: "tick", D: back},
+					{Kind: "gettok", ID: "skew", Inst: 1}, {Kind: "getauth", ID: "skew", Inst: 1}, {Kind: "tick", D: -back + time.Second}, {Kind: "gettok", ID: "skew"}}
+				runScenario(r, scenario{Kind: kind, Abs: p[0], Idle: p[1], Ops: ops}, func(storeOp) bool { return true })
+			}
+		}
+	}
 	busyStorePatterns(r, pairs)
-	concurrentExpiredReads(r, "[C10]")
+	storeCrashProbe(r, "[C10]") // first in a child process: a store whose map is touched without its lock aborts the process
+	if r.unknownViolations() == 0 {
+		concurrentExpiredReads(r, "[C10]")
+	}
 	n := 800
 	if r.thorough() {
 		n = 30000
